@@ -114,6 +114,7 @@ pub fn gen_world(rng: &mut Rng, p: &GenParams) -> WorldSpec {
                         command: format!("{}__decoy", c),
                         rel: format!("{}/monorail/cmd/{}.alt.sh", t.path, c),
                         exec: true,
+                        broken: false,
                     });
                 }
                 continue;
@@ -123,13 +124,21 @@ pub fn gen_world(rng: &mut Rng, p: &GenParams) -> WorldSpec {
                 command: c.to_string(),
                 rel: WorldSpec::default_cmd_rel(&t.path, c),
                 exec: !rng.chance(p.nonexec_pct, 100),
+                broken: false,
             });
         }
     }
     let mut sequences = vec![];
     if cmds.len() >= 2 && rng.chance(p.sequences_pct, 100) {
-        let k = rng.range(1, cmds.len());
-        sequences.push(("ci".to_string(), cmds[..k].iter().map(|s| s.to_string()).collect()));
+        if cmds.len() >= 3 && rng.chance(1, 2) {
+            // several sequences over disjoint commands (a command never occurs twice in one run)
+            let cut = rng.range(1, cmds.len() - 1);
+            sequences.push(("ci".to_string(), cmds[..cut].iter().map(|s| s.to_string()).collect()));
+            sequences.push(("post".to_string(), cmds[cut..].iter().map(|s| s.to_string()).collect()));
+        } else {
+            let k = rng.range(1, cmds.len());
+            sequences.push(("ci".to_string(), cmds[..k].iter().map(|s| s.to_string()).collect()));
+        }
     }
     if rng.chance(p.shuffle_decl_pct, 100) {
         rng.shuffle(&mut targets);
@@ -186,9 +195,16 @@ pub fn gen_opts(rng: &mut Rng, spec: &WorldSpec) -> RunOpts {
     let cmds = world_commands(spec);
     let mut o = RunOpts::default();
     if !spec.sequences.is_empty() && rng.chance(60, 100) {
-        o.sequences.push(spec.sequences[0].0.clone());
+        // one or all of the configured sequences, in a seeded order
+        let mut names: Vec<String> = spec.sequences.iter().map(|s| s.0.clone()).collect();
+        rng.shuffle(&mut names);
+        if names.len() > 1 && rng.chance(1, 3) {
+            names.truncate(1);
+        }
+        o.sequences = names;
         // never the same command twice in one run: (command, target) would no longer name one process
-        let rest: Vec<&String> = cmds.iter().filter(|c| !spec.sequences[0].1.contains(c)).collect();
+        let used: Vec<&String> = spec.sequences.iter().filter(|s| o.sequences.contains(&s.0)).flat_map(|s| s.1.iter()).collect();
+        let rest: Vec<&String> = cmds.iter().filter(|c| !used.contains(c)).collect();
         if !rest.is_empty() && rng.chance(60, 100) {
             o.commands.push(rest[rng.below(rest.len())].clone());
         }
